@@ -83,7 +83,7 @@ func (g *Graph) gate(m atomMatcher, accept map[int]bool, barrier map[int]bool, f
 		from int
 		e    GEdge
 	}
-	var failing []fe
+	var failing, unevaluated []fe
 	condSet := map[int]bool{}
 	for _, n := range g.Nodes {
 		if !live[n.ID] {
@@ -101,6 +101,9 @@ func (g *Graph) gate(m atomMatcher, accept map[int]bool, barrier map[int]bool, f
 			condSet[n.ID] = true
 			if p.bad {
 				failing = append(failing, fe{n.ID, e})
+			}
+			if p.na {
+				unevaluated = append(unevaluated, fe{n.ID, e})
 			}
 		}
 	}
@@ -122,6 +125,26 @@ func (g *Graph) gate(m atomMatcher, accept map[int]bool, barrier map[int]bool, f
 		for a := range accept {
 			if r[a] {
 				res.leak, res.leakPos = true, g.pos(f.from)
+			}
+		}
+	}
+	// an edge on which short-circuit evaluation skipped the atom, and from
+	// which accept is reachable, bypasses the guard (relevant for guards
+	// that must be evaluated)
+	for _, f := range unevaluated {
+		start := f.e.To
+		if accept[start] {
+			res.bypass = true
+			continue
+		}
+		if barrier[start] {
+			continue
+		}
+		// the atom may still be evaluated later on the way
+		r := g.reach([]int{start}, func(id int) bool { return barrier[id] || (condSet[id] && id != f.from) }, nil)
+		for a := range accept {
+			if r[a] && !condSet[a] {
+				res.bypass = true
 			}
 		}
 	}
